@@ -292,6 +292,7 @@ impl<N, E, Ty: EdgeType, Ix: IndexType> StableGraph<N, E, Ty, Ix> {
     pub proof fn lemma_nbound(&self)
         ensures self.nbound() as int == sbound(self.ns(), self.ns().len() as int), self.nbound() <= self.ns().len(),
             forall|a: int| nlive(self.ns(), a) ==> a < self.nbound(),
+            self.nbound() > 0 ==> nlive(self.ns(), self.nbound() - 1),
     {
         assert(self.g.nodes@.len() == self.g.nodes.len());
         lemma_sbound(self.ns(), self.ns().len() as int);
